@@ -582,7 +582,12 @@ def emit_section(section: Section, indent: int = 0, format_options: FormatOption
     if hasattr(section, "leading_comments"):
         lines.extend(_emit_leading_comments(section.leading_comments, indent, strip_comments))
 
-    section_line = f"{indent_str}\u00a7{section.section_id}::{section.key}"
+    # A numbered section read without a name (§1:: / §2b::) carries its number as the name. A number is
+    # not a section name the reader accepts, so such a header is written back nameless, as it was read.
+    section_name = section.key
+    if section_name == section.section_id and section_name[:1].isdigit():
+        section_name = ""
+    section_line = f"{indent_str}\u00a7{section.section_id}::{section_name}"
     if section.annotation:
         section_line += f"[{section.annotation}]"
     lines.append(section_line)
